@@ -70,6 +70,7 @@ let outcome_of = function
   | A "eof" -> DEof
   | A "panic" -> DPanic
   | A "bound" -> DFuel
+  | A "error-other-than-eof" -> DError
   | x -> raise (Parse_error ("outcome " ^ show x))
 
 let frame_of = function
@@ -95,7 +96,7 @@ let rec bump_all prefix = function
 
 let show_status = function StOk -> "ok" | StErr -> "err" | StPanic -> "panic"
 let show_res = function Ok _ -> "ok" | Err _ -> "err" | Panic -> "panic"
-let show_outcome = function DEof -> "eof" | DPanic -> "panic" | DFuel -> "bound"
+let show_outcome = function DEof -> "eof" | DPanic -> "panic" | DFuel -> "bound" | DError -> "error"
 
 let b2s b = if b then "1" else "0"
 
@@ -284,7 +285,7 @@ let () =
       bump "kind_prop"; bump ("prop_" ^ atom how ^ "_" ^ (match o with PSel _ -> "sel" | PNotFound -> "notfound" | POther -> "other" | PPanic -> "panic"));
       note_nontrivial (show (List.hd sx));
       let agree = prop_obs_agrees m o in
-      verdict ~agree ~spec:agree ~kf:"-"
+      verdict ~agree ~spec:(prop_obs_spec_ok m o) ~kf:"-"
         ~detail:(Printf.sprintf "model=%s" (match m with Ok s -> "sel " ^ show_chars s | Err N0 -> "err" | Err _ -> "err(code)" | Panic -> "panic"))
     (* ---- Response.DecodeProp with several values *)
     | [L [A "propm"; L tags; rc; L pss]; L [A "obs"; ob]] ->
@@ -304,7 +305,7 @@ let () =
       bump (Printf.sprintf "propm_%d_%s" (List.length tags) (match o with PMSel _ -> "sel" | PMNotFound -> "notfound" | PMOther -> "other" | PMPanic -> "panic"));
       note_nontrivial (show (List.hd sx));
       let agree = propm_obs_agrees m o in
-      verdict ~agree ~spec:agree ~kf:"-"
+      verdict ~agree ~spec:(propm_obs_spec_ok m o) ~kf:"-"
         ~detail:(Printf.sprintf "model=%s" (match m with Ok l -> "sels " ^ String.concat " " (List.map show_chars l) | Err N0 -> "err" | Err _ -> "err(code)" | Panic -> "panic"))
     (* ---- valueXMLName *)
     | [L [A "name"; tag]; L [A "obs"; ob]] ->
